@@ -106,69 +106,4 @@ theorem firstSampleOf_congr (raw raw' : List (Nat × Nat × Nat)) : ∀ c,
     · rw [firstSampleOf_succ raw (by omega), firstSampleOf_succ raw' (by omega),
         ih (fun x h1 h2 => hx x h1 (by omega)), hx k (by omega) (by omega)]
 
-theorem cropStsc_spec' (raw : List (Nat × Nat × Nat)) (h : RawOK raw) (cmax c last : Nat) (hw : NoWrap raw cmax)
-    (h1 : 1 ≤ c) (hc : c ≤ cmax) (hlo : firstSampleOf raw c ≤ last) (hhi : last < firstSampleOf raw (c + 1)) :
-    ∃ raw', cropStsc raw last = some raw' ∧
-      (∀ j, 1 ≤ j → j < c → spcOf raw' j = spcOf raw j) ∧
-      spcOf raw' c = last + 1 - firstSampleOf raw c ∧
-      firstSampleOf raw' (c + 1) = last + 1 := by
-  have hin := findEntryForChunk_spec h hw h1
-  generalize (Stsc.ofRaw raw).findEntryForChunk c = j at hin
-  have hfind := findEntryForSample_spec h hw hin hlo hhi (Nat.zero_le _)
-  have h32 := hw.1
-  have hspc := spcAt_pos h hin.lt
-  have hn : last < U32 := Nat.lt_trans hhi (firstSampleOf_lt_U32 hw (c := c + 1) (by omega))
-  have hfs := firstSampleOf_inEntry h hin
-  have hfs' := firstSampleOf_inEntry_succ h hin
-  have hsucc := firstSampleOf_succ raw h1
-  have hspcc := spcOf_of_inEntry h hin
-  have hfclo := hin.lo
-  have hjl := hin.lt
-  have hfs1 := firstSampleOf_pos raw (fcAt raw j)
-  -- abbreviations
-  generalize hFS : firstSampleOf raw (fcAt raw j) = fs at *
-  generalize hSP : spcAt raw j = spc at *
-  generalize hFC : fcAt raw j = fc at *
-  have hsl : (last + U32 - fs + 1) % U32 = last + 1 - fs := by
-    have : fs ≤ last := by
-      generalize (c - fc) * spc = p at *; omega
-    rw [U32_eq] at *; omega
-  have hmul : (c + 1 - fc) * spc = (c - fc) * spc + spc := by
-    rw [show c + 1 - fc = (c - fc) + 1 by omega, Nat.succ_mul]
-  unfold cropStsc
-  simp only []
-  rw [hfind, ofRaw_getElem? h hw hjl, hFC, hFS, hSP]
-  have hrj : raw[j]? = some raw[j] := List.getElem?_eq_getElem hjl
-  rw [hrj]
-  simp only [Option.bind_eq_bind, Option.bind_some]
-  rw [if_neg (by omega), hsl]
-  by_cases hfull : last + 1 = firstSampleOf raw (c + 1)
-  · -- the chunk is kept whole
-    have hdiv : (last + 1 - fs) / spc = c + 1 - fc := by
-      rw [hfull, hfs', Nat.add_sub_cancel_left, Nat.mul_div_cancel _ hspc]
-    have hzero : last + 1 - fs - (last + 1 - fs) / spc * spc = 0 := by
-      rw [hdiv, hfull, hfs', Nat.add_sub_cancel_left, Nat.sub_self]
-    rw [hzero]
-    refine ⟨raw.take (j + 1), by simp, ?_, ?_, ?_⟩
-    · intro x _ hx; exact spcOf_take h hin (by omega)
-    · rw [spcOf_take h hin (Nat.le_refl _)]; omega
-    · rw [firstSampleOf_congr raw (raw.take (j + 1)) (c + 1) (fun x _ hx => spcOf_take h hin (by omega))]
-      omega
-  · have hdiv : (last + 1 - fs) / spc = c - fc := by
-      apply Nat.div_eq_of_lt_le
-      · generalize (c - fc) * spc = p at *; omega
-      · rw [Nat.succ_mul]; generalize (c - fc) * spc = p at *
-        generalize (c + 1 - fc) * spc = q at *; omega
-    have hleft : last + 1 - fs - (last + 1 - fs) / spc * spc = last + 1 - firstSampleOf raw c := by
-      rw [hdiv, hfs]; generalize (c - fc) * spc = p at *; omega
-    have hpos : last + 1 - firstSampleOf raw c > 0 := by omega
-    have hcc : (fc + (c - fc)) % U32 = c := by rw [U32_eq] at *; omega
-    rw [hleft, hdiv, if_pos hpos, hcc]
-    refine ⟨_, rfl, ?_, ?_, ?_⟩
-    · intro x _ hx; exact spcOf_take_append_lt h hin hx _ _
-    · exact spcOf_append_self _ _ _ _
-    · rw [firstSampleOf_succ _ h1, spcOf_append_self,
-        firstSampleOf_congr raw _ c (fun x _ hx => spcOf_take_append_lt h hin hx _ _)]
-      omega
-
 end Mp4ff.Crop
